@@ -280,7 +280,7 @@ func (e *Engine) appendOp(st *State, args []Value, c *ssa.CallCommon) Value {
 		}
 	case VNil:
 	default:
-		return VUnknown{c.Signature().Results().At(0).Type(), "append"}
+		return VUnknown{Typ: c.Signature().Results().At(0).Type(), Note: "append"}
 	}
 	var old []Value
 	switch b := base.(type) {
@@ -297,9 +297,9 @@ func (e *Engine) appendOp(st *State, args []Value, c *ssa.CallCommon) Value {
 			s.Appended = append(s.Appended, elems...)
 			return VAbs{Kind: "seq", ID: b.ID, Data: s}
 		}
-		return VUnknown{c.Signature().Results().At(0).Type(), "append"}
+		return VUnknown{Typ: c.Signature().Results().At(0).Type(), Note: "append"}
 	default:
-		return VUnknown{c.Signature().Results().At(0).Type(), "append"}
+		return VUnknown{Typ: c.Signature().Results().At(0).Type(), Note: "append"}
 	}
 	all := append(append([]Value{}, old...), elems...)
 	cell := e.newCell(st, VStruct{all})
